@@ -464,7 +464,7 @@ impl Prop for C18 {
                     st.fault_n("timeout_on_empty_queue", out.chan.timeouts_empty);
                     st.probe_n("try_recv_empty", out.chan.try_recv_empty);
                     st.probe_n("worker_saw_disconnect", out.chan.disconnects_seen);
-                    st.interleaving = Some(st.interleaving.unwrap_or(0) ^ crate::rng::mix64(out.chan.hash));
+                    st.schedules_seen.push(out.chan.hash);
                     seen_q |= out.outcomes.iter().flatten().any(|q| *q);
                     seen_d |= out.outcomes.iter().flatten().any(|q| !*q);
                     check_accounting(cfg, dispatchers, &out, st)?;
